@@ -16,7 +16,7 @@ pub fn def() -> CheckDef {
         rule: "case = parent / child (/ grandchild) models: the calling act sits between other acts and, in half of the cases, beside a second branch with its own open interrupt; the child ends completed / error / aborted (decided by the client's answer to the child's interrupt) or the target model is missing; seeded schedule decides how the child's return interleaves with the other activity of the parent. oracles: the calling act is open at every quiescent point before the child's terminal event and is closed exactly once afterwards with the prescribed state and data, the child's inputs equal the call's options, the successor of the calling act starts once and only after it is closed, the parent's terminal event follows the child's, a missing model fails the calling act and the process. non-trivial = a child process really started and ended (or the model was missing); distinct = distinct (scenario hash, schedule hash)",
         level: "exploration",
         assumptions: &["monotone simulated clock", "child ending `skipped` is not reachable through client actions on the child's acts and is not generated", "no storage errors are injected"],
-        probes: &["probe.child_completed", "probe.child_error", "probe.child_aborted", "probe.missing_model", "probe.grandchild", "probe.parent_busy_while_child_runs", "probe.parent_event_delivered_first"],
+        probes: &["probe.child_completed", "probe.child_error", "probe.child_aborted", "probe.missing_model", "probe.grandchild", "probe.parent_busy_while_child_runs", "probe.parent_event_delivered_first", "probe.child_failed_without_code"],
         quick_cases: 5000,
         no_shrink: &[],
     }
@@ -74,7 +74,12 @@ fn gen_scenario(rng: &mut vsim::rng::Rng) -> Scenario {
     if depth3 {
         let mut o = BTreeMap::new();
         o.insert("y".to_string(), json!(xval + 1));
-        cacts.push(MAct { id: "ccall".into(), key: "ccallkey".into(), kind: ActKind::Subflow { to: "grand".into(), options: o }, ..Default::default() });
+        // sometimes the grandchild's model does not exist: the child fails by itself (an error without a code)
+        let to = if rng.below(5) == 0 { "nogrand" } else { "grand" };
+        cacts.push(MAct { id: "ccall".into(), key: "ccallkey".into(), kind: ActKind::Subflow { to: to.into(), options: o }, ..Default::default() });
+    } else if rng.below(8) == 0 {
+        // the child fails by itself: a script that throws (an error without a code)
+        cacts.push(MAct { id: "cthrow".into(), kind: ActKind::Code("throw new Error(\"child script failed\");".into()), ..Default::default() });
     }
     if rng.below(2) == 0 {
         cacts.push(irq("ca2", "ck2"));
@@ -193,7 +198,12 @@ pub fn case(ctx: &mut CaseCtx) -> CaseOut {
             };
             match want {
                 "completed" => ctx.count("probe.child_completed", 1),
-                "error" => ctx.count("probe.child_error", 1),
+                "error" => {
+                    ctx.count("probe.child_error", 1);
+                    if cend.inputs.get("ecode").and_then(|x| x.as_str()).unwrap_or("").is_empty() {
+                        ctx.count("probe.child_failed_without_code", 1);
+                    }
+                }
                 "aborted" => ctx.count("probe.child_aborted", 1),
                 _ => {}
             }
